@@ -320,6 +320,20 @@ func c06Cases(c *Ctx, w *prove.World, wt wireType, m, u *ssa.Function) {
 		}
 		decCase[k] = append(decCase[k], a)
 	}
+	// tail delegation: a case whose body is `return recv.helper(data)` is decoded
+	// by that helper (extract-method refactor); the helper is analysed in its place
+	delegate := map[string]*ssa.Function{}
+	for _, b := range u.Blocks {
+		h := tailDelegate(u, b)
+		if h == nil {
+			continue
+		}
+		if k := caseOf(eu, b, "BufferFormat"); k != "" {
+			delegate[k] = h
+			eh := codec.NewExt(w, h)
+			decCase[k] = append(decCase[k], eh.Decoded()...)
+		}
+	}
 	var ks []string
 	for k := range encCase {
 		ks = append(ks, k)
@@ -354,8 +368,42 @@ func c06Cases(c *Ctx, w *prove.World, wt wireType, m, u *ssa.Function) {
 		r.OK("extract", key, pos, "enc ["+codec.Render(enc)+"] dec ["+codec.Render(dec)+"]")
 		compareLayouts(c, "sym", key, pos, dropConst(enc), dec)
 		checkContig(c, key, pos, dec, 0)
-		c06VarCount(c, w, key, u, enc, dec)
+		if h := delegate[k]; h != nil {
+			c06VarCount(c, w, key, h, enc, dec)
+		} else {
+			c06VarCount(c, w, key, u, enc, dec)
+		}
 	}
+}
+
+// tailDelegate: block b of decoder u ends in `return h(recv, data)` forwarding
+// both results of a static call to a method of the same receiver type that is
+// handed u's receiver and u's input buffer unchanged. Returns h.
+func tailDelegate(u *ssa.Function, b *ssa.BasicBlock) *ssa.Function {
+	ret, ok := b.Instrs[len(b.Instrs)-1].(*ssa.Return)
+	if !ok || len(ret.Results) != 2 {
+		return nil
+	}
+	e0, ok0 := ret.Results[0].(*ssa.Extract)
+	e1, ok1 := ret.Results[1].(*ssa.Extract)
+	if !ok0 || !ok1 || e0.Tuple != e1.Tuple || e0.Index != 0 || e1.Index != 1 {
+		return nil
+	}
+	call, ok := e0.Tuple.(*ssa.Call)
+	if !ok {
+		return nil
+	}
+	h := call.Common().StaticCallee()
+	if h == nil || h.Blocks == nil || h.Signature.Recv() == nil || len(u.Params) < 2 || len(call.Common().Args) != 2 {
+		return nil
+	}
+	if call.Common().Args[0] != ssa.Value(u.Params[0]) || call.Common().Args[1] != ssa.Value(u.Params[1]) {
+		return nil
+	}
+	if !types.Identical(h.Signature.Recv().Type(), u.Signature.Recv().Type()) {
+		return nil
+	}
+	return h
 }
 
 func successReturnsEnc(fn *ssa.Function) []*ssa.Return {
@@ -431,7 +479,7 @@ func c06Date(c *Ctx, w *prove.World, m, u *ssa.Function) {
 	for _, b := range m.Blocks {
 		for _, in := range b.Instrs {
 			if call, ok := in.(*ssa.Call); ok {
-				if name, order, ok := binAccessor(call); ok && name == "PutUint16" {
+				if name, order, ok := binAccessor(call); ok && (name == "PutUint16" || name == "AppendUint16") {
 					put = call
 					if order != "LE" {
 						r.Fail("sym", "SMB_DATE word byte order", p.Rel(call.Pos()), "the packed date word is not written little-endian")
@@ -441,7 +489,7 @@ func c06Date(c *Ctx, w *prove.World, m, u *ssa.Function) {
 		}
 	}
 	if put == nil {
-		r.Undecided("sym", "SMB_DATE.Marshal", pos, "no PutUint16 of the packed word found")
+		r.Undecided("sym", "SMB_DATE.Marshal", pos, "no PutUint16/AppendUint16 of the packed word found")
 		return
 	}
 	em := codec.NewExt(w, m)
